@@ -353,7 +353,7 @@ def _whole_listing(pm: ProgramModel, gr: FuncInfo) -> list[str]:
     from ..model import ModelBuilder, rich_model
     from .c16 import tree_models
     mb = ModelBuilder(pm)
-    models = tree_models(mb)
+    models = tree_models(mb, decorated=True)
     models["rich"] = rich_model(mb)
     bad = []
     for name, m in models.items():
@@ -637,18 +637,18 @@ def filters_eval(pm: ProgramModel, ctx: Ctx, fmc: Any) -> None:
     ctx.floor(rule, "listings evaluated", n, 16)
 
 
-def fresh_after_edit(pm: ProgramModel, ctx: Ctx, fmc: Any) -> None:
+def fresh_after_edit(pm: ProgramModel, ctx: Ctx, fmc: Any, rule: str = "C03-FRESH",
+                     only: Optional[tuple[str, ...]] = None, about: str = "") -> None:
     """A model is a mutable tree: every query answers for the tree as it is NOW. Each query is evaluated, the tree
     is edited in place (sub-tree detached / a feature replaced by a new object of the same name / a child added /
     the root replaced), and the query is evaluated again on the same object in the same process; the second
     answer must be the one a fresh process gives for the edited tree."""
     from ..absint import reset_global_state
     from ..model import ModelBuilder
-    rule = "C03-FRESH"
     from ..absint import DynFunc
     queries = []
     for n in Interp(pm).class_names(fmc):
-        if not n.startswith("get_"):
+        if not n.startswith("get_") or about not in n:
             continue
         m = pm.method(fmc, n)
         if m is None or m.is_static():
@@ -658,7 +658,7 @@ def fresh_after_edit(pm: ProgramModel, ctx: Ctx, fmc: Any) -> None:
         elif len(m.params) == 1:
             queries.append(n)
     queries.sort()
-    ctx.floor(rule, "parameterless queries", len(queries), 15)
+    ctx.floor(rule, "parameterless queries", len(queries), 15 if not about else 5)
     gbn = pm.method(fmc, "get_feature_by_name")
 
     def build() -> tuple[Any, AObj, dict[str, Any]]:
@@ -673,7 +673,9 @@ def fresh_after_edit(pm: ProgramModel, ctx: Ctx, fmc: Any) -> None:
         mb.relation(b, [b1], 1, 1)
         mb.relation(c, [c1], 0, 1)
         n, o = mb.node, mb.op
-        fm = mb.model(root, [mb.constraint("k", n(o("REQUIRES"), n("A1"), n("B")))])
+        fm = mb.model(root, [mb.constraint("k", n(o("REQUIRES"), n("A1"), n("B"))),
+                             mb.constraint("k2", n(o("EXCLUDES"), n("A2"), n("C"))),
+                             mb.constraint("k3", n(o("IMPLIES"), n("C1"), n(o("AND"), n("B"), n("A"))))])
         return mb, fm, {"root": root, "a": a, "b": b, "c": c, "a2": a2, "rb": rb, "ra": ra}
 
     def edits(mb: Any, fm: AObj, h: dict[str, Any]) -> dict[str, Any]:
@@ -691,15 +693,48 @@ def fresh_after_edit(pm: ProgramModel, ctx: Ctx, fmc: Any) -> None:
         def new_root() -> None:
             h["c"]._f["parent"] = None
             fm._f["root"] = h["c"]
+        def new_formula() -> None:
+            # the public setter: the requires-constraint becomes a three-literal clause (complex, strict-complex)
+            n, o = mb.node, mb.op
+            it_.setattr_obj(fm._f["ctcs"][0], "ast", mb.ast(n(o("OR"), n("A1"), n(o("OR"), n("B"), n("C1")))))
+
+        def formula_in_place() -> None:
+            n, o = mb.node, mb.op
+            held = it_.getattr(fm._f["ctcs"][2], "ast", _ast.Constant(value=None), None)
+            it_.setattr_obj(held, "root", n(o("OR"), n(o("NOT"), n("C1")), n("B")))     # pseudo-complex -> simple (requires)
+
+        def list_edited() -> None:
+            n, o = mb.node, mb.op
+            cs = fm._f["ctcs"]
+            cs.reverse()
+            cs[0] = mb.constraint("k4", n(o("OR"), n("A"), n(o("OR"), n("B1"), n("C"))))
+            cs.insert(0, mb.constraint("k5", n(o("NOT"), n(o("AND"), n("A1"), n("B")))))
         return {"sub-tree-detached": detach, "feature-replaced-by-same-name": replace, "child-added": add,
-                "root-replaced": new_root}
+                "root-replaced": new_root, "constraint-formula-replaced": new_formula,
+                "constraint-formula-edited-in-place": formula_in_place, "constraint-list-edited": list_edited}
+
+    def ident(x: Any) -> Any:
+        """Features and relations by identity; constraints by name and formula (the reference holds fresh copies)."""
+        if isinstance(x, AObj) and x._cls == "Constraint":
+            from ..roundtrip import tree_str
+            a_ = x._f.get("_ast")
+            return ("constraint", x._f.get("name"), tree_str(a_._f.get("root")) if isinstance(a_, AObj) else repr(a_))
+        return id(x)
+
+    def copy_ctc(mb2: Any, c: AObj) -> AObj:
+        def cp(nd: Any) -> Any:
+            if not isinstance(nd, AObj):
+                return nd
+            return mb2.node(nd._f.get("data"), cp(nd._f.get("left")), cp(nd._f.get("right")))
+        a_ = c._f.get("_ast")
+        return mb2.constraint(c._f.get("name"), cp(a_._f.get("root"))) if isinstance(a_, AObj) else c
 
     def observe(it: Interp, fm: AObj, names: list[str]) -> dict[str, Any]:
         out: dict[str, Any] = {}
         for q in queries:
             try:
                 v = it.call(pm.method(fmc, q), [fm])
-                out[q] = [id(x) for x in v] if isinstance(v, (list, tuple)) else (id(v) if isinstance(v, AObj) else v)
+                out[q] = [ident(x) for x in v] if isinstance(v, (list, tuple)) else (ident(v) if isinstance(v, AObj) else v)
             except AbsRaise as exc:
                 out[q] = ("raise", exc.what.split(" at ")[0])
         if gbn is not None:
@@ -711,10 +746,14 @@ def fresh_after_edit(pm: ProgramModel, ctx: Ctx, fmc: Any) -> None:
                     out[f"get_feature_by_name({nm!r})"] = ("raise", exc.what.split(" at ")[0])
         return out
     names = ["R", "A", "B", "C", "A1", "A2", "B1", "C1", "C2", "missing"]
-    for ename in ("sub-tree-detached", "feature-replaced-by-same-name", "child-added", "root-replaced"):
+    import ast as _ast
+    for ename in ("sub-tree-detached", "feature-replaced-by-same-name", "child-added", "root-replaced",
+                  "constraint-formula-replaced", "constraint-formula-edited-in-place", "constraint-list-edited"):
+        if only is not None and ename not in only:
+            continue
         reset_global_state()
         mb, fm, h = build()
-        it = Interp(pm, max_depth=40)
+        it = it_ = Interp(pm, max_depth=40)
         observe(it, fm, names)                 # first use: whatever the model remembers is now warm
         try:
             edits(mb, fm, h)[ename]()
@@ -723,7 +762,8 @@ def fresh_after_edit(pm: ProgramModel, ctx: Ctx, fmc: Any) -> None:
         after = observe(it, fm, names)
         reset_global_state()
         # the reference: the same (edited) tree seen by a FeatureModel object that was never queried before
-        fresh_fm = ModelBuilder(pm).model(fm._f["root"], list(fm._f["ctcs"]))
+        mb2 = ModelBuilder(pm)
+        fresh_fm = mb2.model(fm._f["root"], [copy_ctc(mb2, c_) for c_ in fm._f["ctcs"]])   # constraints never asked before
         fresh = observe(Interp(pm, max_depth=40), fresh_fm, names)
         diff = sorted(k for k in after if after[k] != fresh.get(k))
         ctx.check(not diff, rule, f"after-edit:{ename}", loc(fmc.unit.path, fmc.node),
